@@ -534,6 +534,9 @@ class _Spline(_Algorithm):
             )
             baseline = self._polynomial.vandermonde @ (pseudo_inverse @ data)
             weights = _weighting._asls(data, baseline, p)
+            # have to invert the weight ordering to match the original input y ordering
+            # since it will be sorted within _setup_spline
+            weights = _sort_array(weights, self._inverted_order)
 
         y, weight_array, pspline = self._setup_spline(
             data, weights, spline_degree, num_knots, True, diff_order, lam
